@@ -85,6 +85,27 @@ type expTok struct {
 	offset int // rune offset of the first character in the text
 }
 
+// refDecode: what decoding a quoted token means, written out independently of the library's quote states: the
+// enclosing pair of quote characters is dropped; the expression and CSV states also turn doubled quotes into one
+func refDecode(val string, q rune, doubled bool) string {
+	r := []rune(val)
+	if len(r) < 2 || r[0] != q || r[len(r)-1] != q {
+		return val
+	}
+	inner := r[1 : len(r)-1]
+	if !doubled {
+		return string(inner)
+	}
+	var out []rune
+	for i := 0; i < len(inner); i++ {
+		out = append(out, inner[i])
+		if inner[i] == q && i+1 < len(inner) && inner[i+1] == q {
+			i++
+		}
+	}
+	return string(out)
+}
+
 // postOracle recomputes, from the option-free token stream, what the property says the stream under the given
 // options must be: whole tokens removed or rewritten, never re-segmented.
 func postOracle(t tokenizers.ITokenizer, raw []*tokenizers.Token, bits int) []expTok {
@@ -107,7 +128,8 @@ func postOracle(t tokenizers.ITokenizer, raw []*tokenizers.Token, bits int) []ex
 		}
 		first := []rune(val)[0]
 		if _, isQuote := t.(charStater).GetCharacterState(first).(tokenizers.IQuoteState); isQuote && typ != tokenizers.Special && bits&64 != 0 {
-			val = t.QuoteState().DecodeString(val, first)
+			_, plain := t.QuoteState().(*generic.GenericQuoteState)
+			val = refDecode(val, first, !plain)
 		}
 		if typ == tokenizers.Comment && bits&4 != 0 {
 			continue
